@@ -212,7 +212,6 @@ func checkCSVCells(c *core.Ctx, rule string) {
 	c.Decide(indexBad == "", rule, key+"/slot", loop.Pos(), scen, "the type consulted is the one of the slot written", indexBad)
 }
 
-
 var jsonClasses = []string{"absent", "TypeNull", "TypeNumber", "TypeString", "TypeTrue", "TypeFalse", "TypeArray", "TypeObject"}
 
 // checkJSONArms interprets getOctoSQLValue for every TypeID × JSON value class.
@@ -627,8 +626,6 @@ func checkJSONInference(c *core.Ctx) {
 	c.Decide(guarded >= 1, "INFER", ckey+"/missing fields", cr.Decl.Pos(), guarded, "a field missing from some previewed object gets NULL added to its type",
 		"schema inference never adds NULL to the type of a field that is missing from some of the previewed objects: such rows produce NULL in a non-nullable column")
 }
-
-
 
 // importedConst looks a constant up in a package imported by one of the module's packages.
 func importedConst(p *core.Program, fromRel, path, name string) absint.Val {
